@@ -17,6 +17,7 @@ package rosmar
 //@ spec BODY(r, b, j, e, cas) = Row{present: true, rowid: r.rowid, value: b, cas: cas, exp: e, xattrs: (if hasBody(r) then r.xattrs else NULL), isJSON: j, tombstone: 0, rev: nextrev(r)}
 //@ spec eventOf(k, r) = Event{key: k, value: r.value, isDeletion: isnull(r.value), isJSON: r.isJSON != 0, xattrs: r.xattrs, cas: r.cas, exp: r.exp, rev: r.rev}
 //@ spec HlcInv(r) = r.present ==> r.cas <= hlc.highestTime
+//@ dbinvariant DocInv(r) && HlcInv(r) && IntOK(r)
 //@ spec IntOK(r) = r.rev < 4611686018427387904 && hlc.highestTime < 9223372036854775807
 
 // Generic clauses of every mutating entry point (G1..G8 of DESIGN.md 2.5). `r`/`r2` are the addressed row before/after.
@@ -56,6 +57,7 @@ package rosmar
 // collection.go: reads
 
 //@ fn (*Collection).getRaw
+//@   modular
 //@   variant tx q=tx
 //@   variant pool q=pool
 //@   let r = old(doc(c.id, key))
@@ -148,6 +150,8 @@ package rosmar
 //@ spec wcJSON(opt, raw) = if isnull(raw) then 0 else (if !bit(opt, 1) && !bit(opt, 16) then 1 else 0)
 //@
 //@ fn (*Collection).WriteCas
+//@   modular
+//@   flag modifies=db
 //@   variant bytes val=bytes
 //@   variant nil val=nil
 //@   variant json val=json
@@ -656,3 +660,18 @@ package rosmar
 //@   ensures [C01:GetXattrs.delegates] count("call:Collection.getRawWithXattrs") == 1 && callarg("Collection.getRawWithXattrs", 1) == key && callarg("Collection.getRawWithXattrs", 0) == c
 //@   ensures [C01,C07:GetXattrs.returns-stored] result2 == nil ==> result0 == callret("Collection.getRawWithXattrs", 0).Xattrs && result1 == callret("Collection.getRawWithXattrs", 0).Cas
 //@   ensures [C01:GetXattrs.error]      callret("Collection.getRawWithXattrs", 1) != nil ==> result2 == callret("Collection.getRawWithXattrs", 1)
+
+// ---------------------------------------------------------------------------------------------------------------
+// read-modify-write loops (C03): the only write of an iteration is the CAS-conditional write on the version read
+
+//@ fn (*Collection).Update
+//@   flag callbacks=writedb
+//@   requires DocInv(doc(c.id, key)) && HlcInv(doc(c.id, key)) && IntOK(doc(c.id, key))
+//@   loop 1 invariant [C03:Update.loop] true
+//@   loop 1 body [C03:Update.retry-reason] iter("call:Collection.WriteCas") == 1 ==> iscasmismatch(callret("Collection.WriteCas", 1))
+//@   loop 1 body [C03:Update.one-write-per-attempt] iter("call:Collection.WriteCas") <= 1 && iter("sql") == 0 && iter("callback") == 1
+//@   ensures [C02,C03:Update.writes-on-version-read] count("call:Collection.WriteCas") >= 1 ==> callarg("Collection.WriteCas", 3) == callret("Collection.getRaw", 1) && callarg("Collection.WriteCas", 1) == key && callarg("Collection.WriteCas", 0) == c && callarg("Collection.WriteCas", 5) == 0
+//@   ensures [C03:Update.only-conditional-writes] count("sql") == 0
+//@   ensures [C03:Update.stores-callback-result] count("call:Collection.WriteCas") >= 1 && !isnull(cbret(0)) ==> callarg("Collection.WriteCas", 4) == cbret(0)
+//@   ensures [C03:Update.success-is-writecas] err == nil && casOut != 0 ==> count("call:Collection.WriteCas") >= 1 && callret("Collection.WriteCas", 1) == nil && casOut == callret("Collection.WriteCas", 0)
+//@   ensures [C20:Update.unlocked] any: nolocks()
